@@ -37,7 +37,7 @@ m = {
               "2 ANALYSIS-ERROR. The thorough tier runs the same decision procedure and then tests the procedure itself, still without executing rl4co: "
               "(1) a corpus of source variants evaluated in memory (sa/selftest/corpus.py: mutants that must be reported by the named rule, equivalents that must stay silent) and "
               "(2) metamorphic whole-repo rewrites (sa/selftest/equiv.py: local renames, mirrored comparisons, dim= keywords, commuted operands, size()/shape[]) on which the "
-              "verdicts must not change. Open genuine defects are listed in known_findings.json and printed as KNOWN-FINDING lines; 49 `fix:` commits repair genuine defects in /repo (fixed entries suppress nothing). 326 seeded changes written by sub-agents in ten rounds are kept under seeded/ (324 reported; 2 honestly not decided, see DESIGN 8.4 / 8.5)."),
+              "verdicts must not change. Open genuine defects are listed in known_findings.json and printed as KNOWN-FINDING lines; 49 `fix:` commits repair genuine defects in /repo (fixed entries suppress nothing). 341 seeded changes written by sub-agents in eleven rounds are kept under seeded/ (339 reported; 2 honestly not decided, see DESIGN 8.4 / 8.5)."),
 }
 json.dump(m, open(os.path.join(V, "MANIFEST.json"), "w"), indent=1)
 print("checks:", len(checks), "n/a:", len(na))
